@@ -58,6 +58,16 @@ CHECKS = {
  "C17": dict(level="model_checking", design="5/C17", technique="TLA+ ConfigScope (per-thread stacks of frames, resolution and backend-kind rules) model-checked by TLC; TLC-generated enter/exit programs replayed on two real threads, every thread observing Parallel with 9 explicit-argument variants after every step",
              text="Isolation/restoration/sharedmem/explicit-backend rules are checked on the model; all programs of 3 actions (exhaustive in thorough) and simulated programs up to depth 4 are replayed and every resolved setting compared with the specification.",
              note="Trusted base: TLC; backend names are bound to recording backends via register_parallel_backend. Open finding D11 (context n_jobs lost when threads are forced)."),
+
+ "C10": dict(level="fault_enumeration", design="5/C10", technique="TLA+ LokyExecutor (workers, call queue, result-pipe lock, manager thread with sentinel snapshots, broken flag) checked by TLC incl. liveness NoHang; fault scenarios (stage x signal x victims x with-block) executed against the real loky backend",
+             text="The executor model is checked for NoHang / NoPartialResults / FailsOnlyOnFault with kills at every worker state; 43 (quick) to ~130 (thorough) real scenarios kill workers at exact life-cycle stages and check prompt TerminatedWorkerError, no partial results, one failing call per fault, healthy following calls.",
+             note="Trusted base: TLC; stages are hit without timing except 'while sending'; watchdog 40 s per call."),
+ "C15": dict(level="model_checking", design="5/C15", technique="TLA+ NJobs (cpu_count / effective n_jobs table, nesting machine) checked and enumerated by TLC; every row evaluated under a real affinity mask; gated tasks measure the concurrency high-water mark; nested Parallel programs report pids and backends",
+             text="All rows of the arithmetic table (affinity x LOKY_MAX_CPU_COUNT x backend x n_jobs in [-2c, 2c]) are compared with the real functions; high-water mark <= resolved n_jobs on threading/loky/multiprocessing; nested calls (depth 2-3) never create processes below level 0.",
+             note="Trusted base: TLC; quiescence detection for the high-water mark (count stable for 1-1.5 s); cgroup quota assumed non-binding."),
+ "C19": dict(level="exploration", design="5/C19", technique="TLA+ ArrayLayout (padding arithmetic for every file position, memmap admissibility) enumerating dtype x shape x layout x compressor x mmap_mode x container; real dump/load and loky auto-memmapping under python3-vt compared with the original arrays",
+             text="~1.5k (quick) / 20k (thorough) sampled cases from the enumeration incl. mixed-endian records, item sizes not dividing the read chunk, memmap-backed transposed/reversed views; dtype/shape/order/bytes compared, memory maps checked for 16-byte aligned offsets, arrays around max_nbytes passed to loky workers.",
+             note="Runs on Python 3.11 + numpy 2.4 (python3-vt) because /venv has no numpy. Open finding D18 (byte order normalised on load)."),
 }
 NA_REASON = "check not built yet (construction in progress, see DESIGN.md section 8c build order)"
 M = {"version": 1, "setup_cmd": "make -C /verif",
